@@ -434,8 +434,12 @@ def transform_roundtrip_body():
         d = FloatDistribution(-1.0, 3.0)
         v = sx.sym_real("v", -1.0, float(np.nextafter(3.0, 0.0)))
     else:
-        d = CategoricalDistribution(["a", "b", "c"])
-        v = sx.choose(["a", "b", "c"], "v")
+        # choices of mixed types; the NaN handed to transform() is a different object from the one in the distribution, as it is after
+        # a JSON / storage round trip
+        import warnings
+        warnings.simplefilter("ignore")
+        d = CategoricalDistribution(["a", None, float("nan"), True, 2.5])
+        v = [("a",), (None,), (float("nan"),), (True,), (2.5,)][sx.choose(5, "v")][0]
     space = {"p": d, "q": FloatDistribution(0.0, 1.0)}
     trans = tr._SearchSpaceTransform(space, transform_log=False, transform_step=True, transform_0_1=t01)
     tr.np.known_doubles = []
@@ -446,7 +450,8 @@ def transform_roundtrip_body():
     NPF64.last_nextafter.clear()
     sx.reach("roundtrip")
     if kind == "cat":
-        assert back["p"] == v, f"categorical round trip {v} -> {back['p']}"
+        same = (back["p"] is v) or (back["p"] == v and type(back["p"]) is type(v)) or (isinstance(v, float) and v != v and isinstance(back["p"], float) and back["p"] != back["p"])
+        assert same, f"categorical round trip {v!r} -> {back['p']!r}"
         return True
     return back["p"] == v
 
